@@ -212,6 +212,10 @@ func (w *Whisper) FetchFromArchive(arhiveID int, from, until, now Timestamp) (*T
 	r := &w.ArchiveInfoList()[arhiveID]
 
 	oldest := now.Add(-r.MaxRetention())
+	if Timestamp(r.MaxRetention()) > now {
+		// the retention reaches back beyond the epoch
+		oldest = 0
+	}
 	// range is in the future
 	if from > now {
 		return nil, nil
